@@ -79,6 +79,25 @@ def check_space(ctx, sp, periodic, rng, quick, stats):
         # clip the (at most 1 ulp) excursions of mapped end points
         xi = [min(max(x, Fr(sp.br[0])), Fr(sp.br[-1])) for x in xi]
         xs = np.array(pts)
+        # basis[i]: the i-th basis function as a spline (the periodic image coefficients included)
+        for i in range(basis.nbasis):
+            e = [0.0] * sp.nb
+            e[i] = 1.0
+            if periodic:
+                e = sp.wrap(e)
+            try:
+                bi = basis[i]
+                gotc = [float(v) for v in bi.coeffs]
+                vals = [float(v) for v in bi.eval(xs.copy())]
+                want = [float(sp.spline(e, x, 0, "right")) for x in xi]
+                bad = gotc != e or max(abs(a_ - b_) for a_, b_ in zip(vals, want)) > TOL * 10
+            except Exception as ex:
+                bad, gotc, vals, want = True, ["%s: %s" % (type(ex).__name__, ex)], [], []
+            if bad:
+                ctx.violation({"kind": "basis-function-getitem", "path": "cu" if sp.kind == "cu" else "general", "periodic": bool(periodic)},
+                              "basis[%d] of %s (periodic %s): coefficients %s, expected %s; values differ by %s" % (
+                                  i, sp.key(), periodic, gotc, e, max([abs(a_ - b_) for a_, b_ in zip(vals, want)] or [float("nan")])),
+                              {"space": sp.key(), "i": i, "periodic": periodic, "map": [a, h]})
         spline = spl.Spline1D(basis)
         for name, c in coeff_vectors(sp, periodic, rng, 1 if quick else 3):
             spline.coeffs[:] = c
